@@ -241,7 +241,15 @@ impl datagram_pipe::Sink for MultiplexerSink {
             .map(|c| c.socket.clone())
             .ok_or_else(|| io::Error::from(ErrorKind::NotFound))?;
 
-        socket.send(datagram.payload.as_ref()).await?;
+        if let Err(e) = socket.send(datagram.payload.as_ref()).await {
+            // an error on one flow's socket (e.g. ICMP port unreachable reported on a
+            // connected socket) must not take the whole multiplexer down
+            debug!(
+                "Failed to send UDP datagram: meta={:?} error={}",
+                meta, e
+            );
+            return Ok(datagram_pipe::SendStatus::Dropped);
+        }
 
         if let Some(conn) = self.shared.connections.lock().unwrap().get_mut(&meta) {
             if !conn.being_listened {
